@@ -8,3 +8,5 @@ open Martian.Props.C09
 #print axioms credit_returned_exact
 #print axioms credit_is_flow_controlled_length
 #print axioms no_eligible_frame_stranded
+#print axioms facts_flow_constants
+#print axioms facts_credit_uses_frame_header_length
